@@ -114,7 +114,6 @@ func NewTextStyle(style pr.StyleAccessor, ignoreSpacing bool) *TextStyle {
 	out.FontDescription.Style = newFontStyle(style.GetFontStyle())
 	out.FontDescription.Weight = newFontWeight(style.GetFontWeight())
 	out.FontDescription.Stretch = newFontStretch(style.GetFontStretch())
-	out.FontDescription.Size = pr.Fl(style.GetFontSize().Value)
 	out.FontDescription.VariationSettings = newFontVariationSettings(style.GetFontVariationSettings())
 
 	out.FontLanguageOverride = newFontLanguageOverrride(style.GetFontLanguageOverride())
@@ -131,6 +130,8 @@ func NewTextStyle(style pr.StyleAccessor, ignoreSpacing bool) *TextStyle {
 	out.HyphenateCharacter = string(style.GetHyphenateCharacter())
 
 	if !ignoreSpacing {
+		// (font-size itself may be a length in ex or ch : the ratio is measured at a fixed size)
+		out.FontDescription.Size = pr.Fl(style.GetFontSize().Value)
 		out.WordSpacing = pr.Fl(style.GetWordSpacing().Value)
 		if ls := style.GetLetterSpacing(); ls.S != "normal" {
 			out.LetterSpacing = pr.Fl(ls.Value)
